@@ -164,8 +164,10 @@ def run_model(ctx, r, cases, fuel=20000, timeout=600):
 
 
 # ---------------------------------------------------------------- model generator (LR/Gen.v) vs gocc
-def gen_compare(ctx, r):
-    """Runs the extracted Gallina model of gocc's LR(1) generator on the grammar of record r (numbering, symbol order and look-ahead
+def gen_compare(ctx, r, auto=False):
+    """(auto=True: the model generator in mode -a, GenAuto.gen_run_auto: the RESOLVED action cells, the announced number of conflicts
+    and the refusal are compared too.)
+    Runs the extracted Gallina model of gocc's LR(1) generator on the grammar of record r (numbering, symbol order and look-ahead
     order taken from gocc's dump) and compares with gocc's own item sets (order included), transitions, and — when gocc produced
     tables — the action rows / canRecover / goto rows read back from the COMPILED parser. Returns None or a description."""
     d = r.dump
@@ -185,12 +187,21 @@ def gen_compare(ctx, r):
     with open(path, "w") as f:
         f.write("%d %d %d\n%s\n%s\n%s\n%s\n" % (len(nts), len(terms), terr, prods, " ".join(sym(s) for s in d["symbols"]),
                                                  " ".join(map(str, la)), " ".join(map(str, pacts))))
-    p = subprocess.run([ctx.modelrun, "gen", path], capture_output=True, text=True, timeout=600)
+    p = subprocess.run([ctx.modelrun, "genauto" if auto else "gen", path], capture_output=True, text=True, timeout=600)
     lines = p.stdout.split("\n")
     kind = lines[0].strip() if lines else "NO-OUTPUT"
     nconf = d.get("numConflicts", 0)
     panicked = bool(d.get("panic"))
-    if kind.startswith("OK"):
+    if kind.startswith("AUTO"):
+        k = int(kind.split()[1])
+        if panicked:
+            return "model generator (-a) produces tables, gocc refuses (panic)"
+        if k != nconf:
+            return "model generator (-a) announces %d conflicts, gocc %d" % (k, nconf)
+    elif kind.startswith("REFUSED"):
+        if not panicked:
+            return "model generator (-a) refuses (an Accept competes), gocc does not"
+    elif kind.startswith("OK"):
         if nconf or panicked:
             return "model generator reports no conflict, gocc reports %s" % ("a panic" if panicked else nconf)
     elif kind.startswith("CONFLICT"):
@@ -204,7 +215,7 @@ def gen_compare(ctx, r):
     rows = [l for l in lines[1:] if l.startswith("I ")]
     if len(rows) != len(d["states"]):
         return "model generator builds %d states, gocc %d" % (len(rows), len(d["states"]))
-    tabs = getattr(r, "tables", None) if kind.startswith("OK") else None
+    tabs = getattr(r, "tables", None) if kind.startswith(("OK", "AUTO")) else None
     for s, (row, st) in enumerate(zip(rows, d["states"])):
         parts = [x.strip() for x in row.split("|")]
         items = parts[0][2:].split()
